@@ -9,6 +9,7 @@ mod fakeirrd;
 mod frame;
 mod fuzz;
 mod hello;
+mod instev;
 mod logs;
 mod memtransport;
 mod meta;
@@ -62,6 +63,7 @@ fn main() {
         "logs" => logs::main(&opts),
         "evalseq" => evalseq::main(&opts),
         "cands" => cands::main(&opts),
+        "instev" => instev::main(&opts),
         _ => {
             eprintln!("unknown op {op}");
             std::process::exit(2);
